@@ -216,7 +216,7 @@ def parse_kani(out, harnesses, rc, wall, cmd):
     return res
 
 
-def playback(dst, harness, features=None, no_default=False, timeout=900):
+def playback(dst, harness, features=None, no_default=False, timeout=900, synth=False):
     """Ask Kani for a concrete counterexample of a failing harness and replay it natively on the scratch
     copy of the real code.  Returns dict(test_name, test_src, native_log, native_failed, values) or None."""
     os.makedirs(TARGET, exist_ok=True)
@@ -241,6 +241,17 @@ def playback(dst, harness, features=None, no_default=False, timeout=900):
             i = t.rfind('#[test]', 0, m.start())
             j = t.find('\n}', m.end())
             cands.append((m.group(1), t[i:j + 2]))
+    if not cands and synth:
+        # a harness without symbolic input (termination harness): replay it natively as it is
+        short = harness.split('::')[-1]
+        for f in sorted(os.listdir(hdir)):
+            t = open(os.path.join(hdir, f)).read()
+            if re.search(r'fn %s\b' % re.escape(short), t):
+                name = 'kani_concrete_playback_%s_0' % short
+                src_txt = '#[test]\nfn %s() {\n    let concrete_vals: Vec<Vec<u8>> = vec![];\n    kani::concrete_playback_run(concrete_vals, %s);\n}' % (name, short)
+                open(os.path.join(hdir, f), 'a').write('\n' + src_txt + '\n')
+                cands.append((name, src_txt))
+                break
     if not cands:
         return {'test_name': None, 'kani_out_tail': out[-3000:]}
     best = None
